@@ -1,4 +1,5 @@
 mod aisle;
+mod builder;
 mod calls;
 mod docs;
 mod project;
@@ -25,6 +26,7 @@ fn main() {
         "subsets" => subsets::main(&args[1..]),
         "meta" => meta::main(&args[1..]),
         "shared" => shared::main(&args[1..]),
+        "builder" => builder::main(&args[1..]),
         "stdmeta" => stdmeta::main(&args[1..]),
         "variants" => variants::main(&args[1..]),
         "fraction" => fraction::main(&args[1..]),
